@@ -260,6 +260,39 @@ let run line =
     let pk = bx p in
     let r = rewrite_v6_lifetimes variant pk (n_of_decimal pref) (n_of_decimal valid) in
     hx r ^ " " ^ am (pk <> []) (r <> pk)
+  | "solicit6" :: sduid :: cmsg :: addr :: prefix :: ones :: rest ->
+    let parsed t = match split_on '/' t with [_; p] -> p | _ -> failwith "parsed" in
+    let ipo t = ip_of (parsed t) in
+    let cnt rest = (match rest with n :: r -> (int_of_string n, r) | [] -> failwith "n") in
+    let (n, rest) = cnt rest in
+    let (cdns, rest) = take n rest in
+    let (ppref, pvalid, rest) = (match rest with a :: b :: r -> (a, b, r) | _ -> failwith "prof") in
+    let (n, rest) = cnt rest in
+    let (pdns, rest) = take n rest in
+    let netof t = (match parsed t with "nil" -> None | x -> (match split_on ':' x with [a; m] -> Some (bx a, bx m) | _ -> failwith "cidr")) in
+    let (nia, rest) = cnt rest in
+    let rec ias k rest acc = if k = 0 then (List.rev acc, rest) else
+        (match rest with
+         | cidr :: pr :: va :: no :: r ->
+           let (os, r) = take (int_of_string no) r in
+           let opts = List.map (fun t -> match split_on '/' t with
+               | [a; pl] -> (ni (List.hd (split_on ',' a)), if pl = "nil" then None else Some (bx pl)) | _ -> failwith "opt") os in
+           ias (k-1) r ({ p6_net = netof cidr; p6_pref = n_of_decimal pr; p6_valid = n_of_decimal va; p6_opts = opts } :: acc)
+         | _ -> failwith "iapool") in
+    let (iapools, rest) = ias nia rest [] in
+    let (npd, rest) = cnt rest in
+    let rec pds k rest acc = if k = 0 then List.rev acc else
+        (match rest with
+         | cidr :: pr :: va :: r -> pds (k-1) r ({ p6_net = netof cidr; p6_pref = n_of_decimal pr; p6_valid = n_of_decimal va; p6_opts = [] } :: acc)
+         | _ -> failwith "pdpool") in
+    let pf = { f6_pref = n_of_decimal ppref; f6_valid = n_of_decimal pvalid; f6_dns = List.map ipo pdns; f6_iana = iapools; f6_pd = pds npd rest [] } in
+    let cx = { c6_addr = ip_of addr; c6_prefix = (if prefix = "nil" then None else Some (bx prefix, ni ones)); c6_dns = List.map ip_of cdns } in
+    (match resolve_v6 cx pf with
+     | None -> "noresolve"
+     | Some r ->
+       (match handle_resolved6 (bx sduid) (bx cmsg) r with
+        | None -> "noresp"
+        | Some b -> hx b ^ " ; " ^ show_msg (parse_message6 b)))
   | "resp6" :: ty :: tx :: cl :: sv :: na :: pd :: nd :: rest ->
     let (dns, rest) = take (int_of_string nd) rest in
     let extras = match rest with _ :: e -> pairs_of e | [] -> [] in
